@@ -35,7 +35,9 @@ def spec(tier):
             "levels=, ordered categoricals, group-specific terms (numeric, categorical, mixed effects, interaction "
             "factors, `|` distributed over sums); every evaluate_new_data call triggers 5 shadow self-evaluations "
             "on row multisets of the training frame (random subset, permutation, repetition, single row, all rows "
-            "of one level / lacking one level). distinct = distinct (formula, frame seed); non-trivial = at least "
+            "of one level / lacking one level), the driver adds the empty selection; bool / nullable / float32 columns; "
+            "histories in which the caller reverses / extends / empties / rebinds the list and array it passed as "
+            "levels= / knots= after the build. distinct = distinct (formula, frame seed); non-trivial = at least "
             "one stateful transform, categorical factor or group term. W0: the repository's tests under the same "
             "contract (advisory there: user functions in tests may ignore their input)."
         ),
